@@ -190,6 +190,23 @@ Fixpoint break_at (s : string) (i : nat) (bs : list nat) : string * nat * list n
     else let '(x, i', bs') := break_at r i bs in (String c x, i', bs')
   end.
 
+(** [e] before every [n]-th ',' ')' ':' (counted over the whole file from [i]): a line break after a label or number *)
+Fixpoint break_before (e : string) (n : nat) (s : string) (i : nat) : string * nat :=
+  match s with
+  | EmptyString => (EmptyString, i)
+  | String c r =>
+    if Ascii.eqb c "," || Ascii.eqb c ")" || Ascii.eqb c ":" then
+      let '(x, i') := break_before e n r (S i) in
+      ((if Nat.eqb (Nat.modulo i n) 0 then e else "") ++ String c x, i')
+    else let '(x, i') := break_before e n r i in (String c x, i')
+  end.
+
+Fixpoint build_src_before (e : string) (n : nat) (i : nat) (texts seps : list string) : string :=
+  match texts, seps with
+  | x :: xr, s :: sr => let '(y, i') := break_before e n x i in y ++ s ++ build_src_before e n i' xr sr
+  | _, _ => ""
+  end.
+
 Fixpoint build_src (breaks : bool) (i : nat) (bs : list nat) (texts seps : list string) : string :=
   match texts, seps with
   | x :: xr, s :: sr =>
@@ -339,7 +356,7 @@ Definition nx_doc_oracle (ts : list utree) (c o : sexp) : option string :=
     end
   end.
 
-Definition corr (ts : list utree) (translate breaks : bool) (breakat : list nat) (seps : list string) (o : sexp) : option string :=
+Definition corr (ts : list utree) (translate breaks : bool) (breakat : list nat) (brk : option (string * nat)) (seps : list string) (o : sexp) : option string :=
   match get_strings "texts" o, get_string "src" o, get_string "nexus" o, get_string "tnexus" o,
         (x <- get "multi" o ;; dec_list dec_item x),
         (x <- get "nexus_recs" o ;; dec_list dec_item x),
@@ -347,7 +364,10 @@ Definition corr (ts : list utree) (translate breaks : bool) (breakat : list nat)
         (x <- get "tnexus_recs" o ;; dec_list dec_item x) with
   | Some texts, Some src, Some nex, Some tnex, Some multi, Some nrecs, Some precs, Some trecs =>
     if negb (list_eqb String.eqb (map writeC ts) texts) then Some "Newick writer: model and implementation differ"
-    else if negb (String.eqb (build_src breaks 0 breakat texts seps) src) then Some "harness: src is not the requested layout"
+    else if negb (String.eqb (match brk with
+                              | Some (e, n) => build_src_before e n 0 texts seps
+                              | None => build_src breaks 0 breakat texts seps
+                              end) src) then Some "harness: src is not the requested layout"
     else
       first_some
         [ (* multi-tree Newick reader on the layout *)
@@ -421,11 +441,16 @@ Definition judge (c o : sexp) : verdict :=
     match (x <- get "trees" c ;; dec_list dec_utree x), get_bool "translate" c, get_bool "breaks" c, get_strings "seps" c with
     | Some ts, Some translate, Some breaks, Some seps =>
       let breakat := match get_nats "breakat" c with Some l => l | None => [] end in
+      let brk := match get_string "brk_before" c with
+                 | Some e => if String.eqb e "" then None
+                             else Some (e, match get_nat "brk_every" c with Some n => Nat.max 1 n | None => 1 end)
+                 | None => None
+                 end in
       let dom := forallb in_domain_px ts in
       match (if dom then first_some [oracle ts o; px_doc_oracle ts c o; nx_doc_oracle ts c o] else None) with
       | Some m => VOracle m
       | None =>
-        match first_some [corr ts translate breaks breakat seps o; px_doc_corr ts translate c o; nx_doc_corr c o] with
+        match first_some [corr ts translate breaks breakat brk seps o; px_doc_corr ts translate c o; nx_doc_corr c o] with
         | Some m => if String.eqb m "undecodable observation" then VBad m else VCorr m
         | None => VOk dom (if dom then (if translate then "translate" else "plain") else "outside-domain")
         end
